@@ -66,6 +66,9 @@ type Ctx struct {
 	tvars   map[*sym.Term][]*sym.Term
 	DomDecided int // branch decisions settled by exhaustive evaluation over byte domains
 
+	// ProbeFn, when set by a harness, turns a model of the path condition into a concrete instance of the path;
+	// it is called when the path ends because the engine cannot interpret something (see PathResult.Probe).
+	ProbeFn func(m map[string]uint64) interface{}
 	// Notes collected by host-side code for reporting.
 	Notes []string
 	// User data for host-side oracles.
@@ -456,6 +459,7 @@ type PathResult struct {
 	Panic    *GoPanic
 	Notes    []string
 	Ret      interface{} // harness-provided summary
+	Probe    interface{} // concrete instance of a path that ended as "unsupported" (from Ctx.ProbeFn)
 	MaxDepth int
 }
 
@@ -601,6 +605,14 @@ func (e *Engine) runPath(h Harness, prefix []bool, solver *sym.Solver, budget Bu
 			switch r := r.(type) {
 			case pathEnd:
 				res.End, res.Detail = r.Reason, r.Detail
+				if r.Reason == "unsupported" && c.ProbeFn != nil {
+					func() {
+						defer func() { recover() }()
+						if sr, m := c.Sat(); sr == sym.Sat {
+							res.Probe = c.ProbeFn(m)
+						}
+					}()
+				}
 			case *GoPanic:
 				// a Go panic that escaped the harness: harnesses normally catch these with Try
 				res.End, res.Detail, res.Panic = "go-panic", r.Msg+" @ "+strings.Join(lastN(r.Stack, 8), " <- "), r
